@@ -100,6 +100,15 @@ func c06Stream(w *W) {
 	}
 	w.Sleep(2 * time.Millisecond)
 	w.Settle()
+	if w.Choose(simrt.SProg, 3) == 0 {
+		// the publisher changes its send queue length now that its subscribers
+		// are connected and idle: whether that reaches the existing connections
+		// or only later ones, everything published afterwards still goes out
+		if err := pub.SetOption(mangos.OptionWriteQLen, []int{128, 256, 300}[w.Choose(simrt.SProg, 3)]); err == nil {
+			w.Probe("publisher-send-queue-length-changed-after-connect")
+		}
+		w.Settle()
+	}
 	stallAt := w.Choose(simrt.SProg, nmsg)
 	resetAfter := 1 + w.Choose(simrt.SProg, 6)
 	var sent [][]byte
